@@ -105,7 +105,7 @@ impl<L: Language> Pattern<L> {
 impl<L: Language> RecExpr<L> {
     pub fn parse(s: &str) -> Result<Self, ParseError> {
         let pat = Pattern::parse(s)?;
-        Ok(pattern_to_re(&pat))
+        pattern_to_re_checked(&pat)
     }
 }
 
@@ -118,16 +118,19 @@ impl<L: Language> MultiPattern<L> {
             if x.is_empty() { continue }
 
             let v: Box<[&str]> = x.split("==").collect();
-            assert_eq!(v.len(), 2);
+            if v.len() != 2 {
+                return Err(ParseError::TokenState(x.to_string()));
+            }
             let var: Pattern<L> = Pattern::parse(v[0])?;
             let rhs: Pattern<L> = Pattern::parse(v[1])?;
-            let Pattern::PVar(v) = var else { panic!("{var} isn't a PVar") };
-            let Pattern::ENode(n, children) = rhs else { panic!("{rhs} isn't an e-node") };
-            let children = children.into_iter().map(|x| {
-                let Pattern::PVar(xx) = x else { panic!("child {x} isn't a PVar") };
-                xx
-            }).collect();
-            out.push((v, n, children));
+            let Pattern::PVar(v) = var else { return Err(ParseError::TokenState(x.to_string())) };
+            let Pattern::ENode(n, children) = rhs else { return Err(ParseError::TokenState(x.to_string())) };
+            let mut pvars = Vec::new();
+            for c in children {
+                let Pattern::PVar(xx) = c else { return Err(ParseError::TokenState(x.to_string())) };
+                pvars.push(xx);
+            }
+            out.push((v, n, pvars));
         }
         Ok(MultiPattern { pats: out })
     }
@@ -140,7 +143,7 @@ fn parse_pattern<L: Language>(tok: &[Token]) -> Result<(Pattern<L>, &[Token]), P
         let (l, tok2) = parse_pattern(tok)?;
         tok = tok2;
 
-        let Token::ColonEquals = &tok[0] else {
+        let Some(Token::ColonEquals) = tok.get(0) else {
             return Err(ParseError::ExpectedColonEquals(to_vec(tok)));
         };
         tok = &tok[1..];
@@ -148,7 +151,7 @@ fn parse_pattern<L: Language>(tok: &[Token]) -> Result<(Pattern<L>, &[Token]), P
         let (r, tok2) = parse_pattern(tok)?;
         tok = tok2;
 
-        let Token::RBracket = &tok[0] else {
+        let Some(Token::RBracket) = tok.get(0) else {
             return Err(ParseError::ExpectedRBracket(to_vec(tok)));
         };
         tok = &tok[1..];
@@ -161,6 +164,10 @@ fn parse_pattern<L: Language>(tok: &[Token]) -> Result<(Pattern<L>, &[Token]), P
 fn parse_pattern_nosubst<L: Language>(
     mut tok: &[Token],
 ) -> Result<(Pattern<L>, &[Token]), ParseError> {
+    if tok.is_empty() {
+        return Err(ParseError::ParseState(to_vec(tok)));
+    }
+
     if let Token::PVar(p) = &tok[0] {
         let pat = Pattern::PVar(p.to_string());
         return Ok((pat, &tok[1..]));
@@ -169,14 +176,17 @@ fn parse_pattern_nosubst<L: Language>(
     if let Token::LParen = tok[0] {
         tok = &tok[1..];
 
-        let Token::Ident(op) = &tok[0] else {
+        let Some(Token::Ident(op)) = tok.get(0) else {
             return Err(ParseError::ParseState(to_vec(tok)));
         };
         tok = &tok[1..];
 
         let mut syntax_elems = vec![NestedSyntaxElem::String(op.to_string())];
         loop {
-            if let Token::RParen = tok[0] {
+            let Some(t) = tok.get(0) else {
+                return Err(ParseError::ParseState(to_vec(tok)));
+            };
+            if let Token::RParen = t {
                 break;
             };
 
@@ -195,7 +205,11 @@ fn parse_pattern_nosubst<L: Language>(
             })
             .collect();
         let node = L::from_syntax(&syntax_elems_mock)
-            .ok_or_else(|| ParseError::FromSyntaxFailed(syntax_elems_mock))?;
+            .ok_or_else(|| ParseError::FromSyntaxFailed(syntax_elems_mock.clone()))?;
+        // from_syntax may ignore surplus elements: the node has to account for every element that was written.
+        if node.to_syntax().len() != syntax_elems_mock.len() {
+            return Err(ParseError::FromSyntaxFailed(syntax_elems_mock));
+        }
         let syntax_elems = syntax_elems
             .into_iter()
             .filter_map(|x| match x {
@@ -230,7 +244,7 @@ enum NestedSyntaxElem<L: Language> {
 fn parse_nested_syntax_elem<L: Language>(
     tok: &[Token],
 ) -> Result<(NestedSyntaxElem<L>, &[Token]), ParseError> {
-    if let Token::Slot(slot) = &tok[0] {
+    if let Some(Token::Slot(slot)) = tok.get(0) {
         return Ok((NestedSyntaxElem::Slot(*slot), &tok[1..]));
     }
 
@@ -316,6 +330,23 @@ impl<L: Language> std::fmt::Debug for MultiPattern<L> {
     }
 }
 
+
+// A term must not contain pattern variables or substitutions.
+fn pattern_to_re_checked<L: Language>(pat: &Pattern<L>) -> Result<RecExpr<L>, ParseError> {
+    let Pattern::ENode(n, children) = pat else {
+        return Err(ParseError::FromSyntaxFailed(vec![SyntaxElem::String(
+            pat.to_string(),
+        )]));
+    };
+    let mut cs = Vec::new();
+    for c in children {
+        cs.push(pattern_to_re_checked(c)?);
+    }
+    Ok(RecExpr {
+        node: n.clone(),
+        children: cs,
+    })
+}
 
 fn to_vec<T: Clone>(t: &[T]) -> Vec<T> {
     t.iter().cloned().collect()
